@@ -5,7 +5,7 @@
  3. runs flytvc for the property (and optionally every property) against the scratch copy with the change"""
 import sys, os, shutil, subprocess, tempfile, json, re, glob
 ENV = dict(os.environ, GOFLAGS='-mod=mod', GOPROXY='off', GOSUMDB='off', GOTOOLCHAIN='local')
-pid = sys.argv[1]; allp = '--all-props' in sys.argv
+pid = sys.argv[1]; allp = '--all-props' in sys.argv; norep = '--no-replay' in sys.argv
 src = f'/tmp/wt/{pid}/_seed' if os.path.isdir(f'/tmp/wt/{pid}/_seed') else f'/verif/seeded/{pid.lower()}-agent'
 name = f'{pid.lower()}-agent'
 dst = f'/verif/seeded/{name}'
@@ -42,7 +42,7 @@ try:
     for p in props:
         out = tempfile.mkdtemp(prefix='flytout.')
         shutil.copy('/verif/known_findings.txt', out)
-        c, o = run(['/verif/bin/flytvc', 'check', '-property', p, '-repo', d, '-out', out, '-v'], '/verif')
+        c, o = run(['/verif/bin/flytvc', 'check', '-property', p, '-repo', d, '-out', out, '-v'] + (['-no-replay'] if norep else []), '/verif')
         viol = re.findall(r'^VIOLATION .*', o, re.M)
         failed = re.findall(r'^FAILED (\S.*?) \[', o, re.M)
         conf = [v for v in viol if 'no-failing-input-found' not in v]
@@ -60,5 +60,6 @@ try: meta = json.load(open(meta_p))
 except Exception: meta = {'property': pid}
 meta['validated_by_verif'] = {k: v for k, v in report.items() if k != 'checks'}
 meta['flytvc'] = report.get('checks')
-json.dump(meta, open(meta_p, 'w'), indent=1)
+if not norep:
+    json.dump(meta, open(meta_p, 'w'), indent=1)
 print(json.dumps(report, indent=1))
